@@ -103,7 +103,7 @@ def main(argv=None):
             if a.only and a.only not in f"{u.name}[{c}]":
                 continue
             tasks.append((prop, ui, c, a.tier, repo))
-    ctx = mp.get_context("fork")
+    ctx = mp.get_context("spawn")      # fresh interpreter per task: term ids (hence query order and solver behaviour) do not depend on the parent
     if a.jobs > 1 and len(tasks) > 1:
         # one fresh fork of this (unit-free) process per task: a unit's queries never depend on which units ran before it
         # in the same worker (Σ-symbol registry, term caches, fresh-name counters)
